@@ -1074,6 +1074,7 @@ class BaseOdeModel(object):
                 self._explicitOde = True
                 # add to the list
                 self._odeList.append(eqn)
+                self._hasNewTransition.trip()
             else:
                 raise InputError("Input is not a transition of an ode")
         else:
